@@ -26,4 +26,15 @@ PROPS = {
         "exhaustive": {"quick": False, "thorough": False},
         "floor": {"quick": 100000, "thorough": 1000000},
     },
+    "C09": {
+        "modes": ["dbg", "rel"],
+        "level": "exploration",
+        "technique": "runtime monitoring: differential oracle - conformant randomised/enumerating reference encoders (interleaved RLE-16, planar RLE-32, uncompressed) vs the real decompressor, byte-exact comparison",
+        "level_text": "Each case is a real call of BitmapEvent::decompress on a stream produced by an independent conformant encoder whose every choice (order type, run split, length form, segmentation) is driven by a chooser; the result must equal the source image widened by exact rounding. All images of <=6 pixels over a 3-colour palette are enumerated with up to N encodings each (enumerated depth-first, not sampled), all 65536 colour values are checked, and random/structured images up to 64x64 (quick) or 256x256 (thorough) get many random encodings. The reference encoder is first round-tripped through a reference decoder; a failure there is a harness failure, not a violation.",
+        "level_note": "Trusted: refs::rle (written from MS-RDPBCGR 2.2.9.1.1.3.1.2.4 / MS-RDPEGDI 2.2.2.5.1). Deliberately not generated (decoders of record disagree): an order crossing the end of the first scanline, and a background run directly after a background run that ended exactly at the end of the first scanline. Uncompressed 16 bpp only with even widths (row padding rule).",
+        "rule": ("cases = (image, one conformant encoding of it); classes: all 65536 colours through a 256x256 colour image and raw 16 bpp; every image of w*h<=6 pixels over a 3-colour palette with its encodings enumerated depth first up to a cap; random and structured images (solid, stripes, row repeats, checkerboards, xor-sparse, xor-runs, runs, noise; ramps and extreme deltas at 32 bpp) with random encodings (order lengths capped at 3/8/40/300/unbounded to force splits); planar segmentations incl. long runs 16..47 and zero-raw segments; uncompressed. "
+                 "distinct = hash of (depth, flag, geometry, stream); every case is non-trivial (the decoder must reproduce >=1 pixel)."),
+        "assumptions": ["the two excluded RLE-16 corner constructs are outside 'conformant encoding' for this check (DESIGN 3, C09)"],
+        "floor": {"quick": 100000, "thorough": 1000000},
+    },
 }
